@@ -1,8 +1,10 @@
 package checks
 
 import (
+	"bufio"
 	"errors"
 	"fmt"
+	"net"
 	"net/http"
 	"net/http/httptest"
 	"sort"
@@ -16,7 +18,7 @@ import (
 // A probe installed as the first global middleware snapshots the context at
 // entry of every request.
 
-var kindNames = []string{"store", "errors", "abort", "status-write", "replace-resp", "replace-req", "set-handlers", "dynamic", "dynamic2", "notfound", "notallowed", "panic", "redispatch", "nested", "copy", "mutate-params", "dynamic3", "delegate"}
+var kindNames = []string{"store", "errors", "abort", "status-write", "replace-resp", "replace-req", "set-handlers", "dynamic", "dynamic2", "notfound", "notallowed", "panic", "redispatch", "nested", "copy", "mutate-params", "dynamic3", "delegate", "hijack", "mutate-novar", "novar", "keep-copy"}
 
 type kindReq struct {
 	method, path string
@@ -43,9 +45,28 @@ var kindReqs = map[string]kindReq{
 	"dynamic3":      {"GET", "/m/9"},
 	// a handler that hands its context to ANOTHER router's HandleContext
 	"delegate": {"GET", "/deleg"},
+	// a handler that hijacks the connection; a handler editing the (empty) params of an optional route without
+	// variables, and a plain request for it; a handler that keeps a Copy() of its context beyond the request
+	"hijack":       {"GET", "/hj"},
+	"mutate-novar": {"POST", "/mo.html"},
+	"novar":        {"GET", "/mo.html"},
+	"keep-copy":    {"GET", "/keep/5"},
 }
 
 type wrapW struct{ http.ResponseWriter }
+
+// hjRec is a response recorder that can also be hijacked (like a real connection)
+type hjRec struct {
+	*httptest.ResponseRecorder
+	hijacked int
+}
+
+func (h *hjRec) Hijack() (net.Conn, *bufio.ReadWriter, error) {
+	h.hijacked++
+	a, b := net.Pipe()
+	_ = b.Close()
+	return a, nil, nil
+}
 
 type kindRouter struct {
 	other    *rux.Router
@@ -53,7 +74,9 @@ type kindRouter struct {
 	snap     string // probe snapshot of the request being served (outermost)
 	snaps    []string
 	ctxPtrs  []*rux.Context
-	curRec   *httptest.ResponseRecorder
+	curRec   *hjRec
+	kept     *rux.Context // a copy of a context a handler kept beyond its request
+	keptWant string
 	curReq   *http.Request
 	depth    int
 	hookRuns int
@@ -175,6 +198,30 @@ func newKindRouter(cfg kindCfg) *kindRouter {
 	} else {
 		r.Add("/m/{id}", mm, "GET", "POST")
 	}
+	get("/hj", func(c *rux.Context) {
+		conn, _, err := c.Resp.(http.Hijacker).Hijack()
+		if err == nil && conn != nil {
+			_ = conn.Close()
+		}
+	})
+	mo := func(c *rux.Context) {
+		seen := fmt.Sprint(len(c.Params)) + c.Param("x")
+		if c.Req.Method == "POST" && c.Params != nil {
+			c.Params["x"] = "evil"
+		}
+		c.WriteString("mo:" + seen)
+	}
+	if cfg.NoGlobal {
+		r.Add("/mo[.html]", mo, "GET", "POST").Use(probe)
+	} else {
+		r.Add("/mo[.html]", mo, "GET", "POST")
+	}
+	get("/keep/{id}", func(c *rux.Context) {
+		c.Set("user", "u"+c.Param("id"))
+		k.kept = c.Copy()
+		k.keptWant = k.describeKept()
+		c.WriteString("kept")
+	})
 	get("/copy", func(c *rux.Context) {
 		cp := c.Copy()
 		cp.Set("in-copy", 1)
@@ -183,9 +230,21 @@ func newKindRouter(cfg kindCfg) *kindRouter {
 	return k
 }
 
+// describeKept renders what the holder of a kept context copy can read from it
+func (k *kindRouter) describeKept() string {
+	c := k.kept
+	return fmt.Sprintf("user=%v route-path=%v params{%s}", c.SafeGet("user"), c.SafeGet(rux.CTXCurrentRoutePath), canonParams(c.Params))
+}
+
 // probe renders everything a handler can observe of the context at entry
 func (k *kindRouter) probe(c *rux.Context) string {
 	var sb strings.Builder
+	if k.kept != nil && k.depth == 0 {
+		// a copy taken by an earlier request must still read what it read when it was taken
+		if now := k.describeKept(); now != k.keptWant {
+			fmt.Fprintf(&sb, "KEPT-COPY-CHANGED{was %s; now %s} ", k.keptWant, now)
+		}
+	}
 	data := c.Data()
 	keys := make([]string, 0, len(data))
 	for key := range data {
@@ -222,7 +281,7 @@ func (k *kindRouter) do(kind string, seenCtx map[*rux.Context]bool) kindObs {
 }
 
 func (k *kindRouter) doReq(method, path string, seenCtx map[*rux.Context]bool) kindObs {
-	rec := httptest.NewRecorder()
+	rec := &hjRec{ResponseRecorder: httptest.NewRecorder()}
 	req := httptest.NewRequest(method, path, nil)
 	k.curRec, k.curReq = rec, req
 	k.snaps, k.ctxPtrs = nil, nil
